@@ -61,6 +61,19 @@ def run_ceiling(case, ctx, mon):
             v = true
             mon.api(s.merge, s)
             mon.count(f"self_merges:{fam}")
+        elif how == "selfmerge-run":
+            # n_added() doubles each time and wraps past 2^64 after 64 of them; the counters must simply stay at the ceiling
+            for _ in range(70):
+                mon.api(s.merge, s)
+            v = true * (2**70 - 1)
+            mon.count(f"self_merge_runs:{fam}")
+        elif how == "merge-into-fresh":
+            # the sketch (possibly with a wrapped n_added) is merged into a fresh one holding a little of the same key
+            t_ = state.make(cfg)
+            t_.add(key, 7)
+            mon.api(t_.merge, s)
+            s = t_
+            v = 7
         elif how == "add":
             mon.api(s.add, key, v)
         else:
@@ -233,6 +246,8 @@ def gen_cases(ctx):
                           "steps": [["add", 3], ["add", 1], ["selfmerge", 0], ["add", 2], ["merge", 4], ["selfmerge", 0], ["add", 1]]})
             cases.append({"type": "ceiling", "family": fam, "start": start, "key": hx(rand_key(rng, 1, 8)), "width": 64, "depth": 2,
                           "steps": [["selfmerge", 0], ["add", 1], ["selfmerge", 0], ["selfmerge", 0]]})
+        cases.append({"type": "ceiling", "family": fam, "start": 1, "key": hx(rand_key(rng, 1, 8)), "width": 3, "depth": 2,
+                      "steps": [["selfmerge-run", 0], ["merge-into-fresh", 0], ["add", 1], ["merge", 5]]})
     for r in range(4):
         for vals in ((2**31, 2**31 - 10, 100), (CAP // 2, 2**31 - 10, 12), (2**31 - 10, 2**31 - 10, 2**31), (CAP - 5, 3, 7), (2**30, 2**31, 2**30 + 5)):
             for d in (r + 1, 4):
